@@ -36,7 +36,7 @@ class Fn:
 
 class Gen:
     def __init__(self, rng, max_depth=3, allow_throw=True, allow_float=True, allow_loops=True,
-                 allow_lambda=True, fault_rate=0.04, allow_trigger=False):
+                 allow_lambda=True, fault_rate=0.04, allow_trigger=False, allow_singletons=False):
         self.r = rng
         self.max_depth = max_depth
         self.allow_throw = allow_throw
@@ -46,6 +46,9 @@ class Gen:
         self.fault_rate = fault_rate          # probability of operands that may fault (x / 0, l[9])
         self.allow_trigger = allow_trigger
         self.use_trigger = False
+        self.allow_singletons = allow_singletons
+        self.singletons = {}                  # `$Name` -> type; readable everywhere, never assigned to directly (finding S1)
+        self.host = None                      # `$Name` -> python value the host provides (None: the program has no singletons)
         self.fns = []
         self.globals = {}                     # name -> type
         self.counter = 0
@@ -70,6 +73,9 @@ class Gen:
             for g, t in self.globals.items():
                 if t == ty and g not in seen:
                     out.append(g)
+        if not assignable:
+            # `$Name` is an expression; its fields / elements may be updated through it, the identifier itself is not assigned
+            out += [sn for sn, t in self.singletons.items() if t == ty]
         return out
 
     # ---- expressions ----------------------------------------------------------
@@ -460,11 +466,18 @@ class Gen:
         nparams = r.randrange(0, 4)
         params = [(self.fresh("p"), r.choice([T_INT, T_INT, T_BOOL, T_STR, T_LINT])) for _ in range(nparams)]
         ret = r.choice([T_INT, T_INT, T_BOOL, T_STR, None])
-        scopes = [{p: (t, True) for p, t in params}]
+        # extraction parameters come first and are not passed by callers: locals bound to the singletons' values
+        extracted = []
+        if self.singletons and r.random() < 0.6:
+            self.features.add("singleton-extraction")
+            names = sorted(self.singletons)
+            r.shuffle(names)
+            extracted = [(self.fresh("e"), sn) for sn in names[:r.randrange(1, len(names) + 1)]]
+        scopes = [{**{e: (self.singletons[sn], True) for e, sn in extracted}, **{p: (t, True) for p, t in params}}]
         ctx = {"break_ok": False, "in_try": False, "ret": ret, "may_throw_ok": may_throw}
         body = self.block(scopes, depth, ctx, n=r.randrange(1, 5))
         # block() pushed its own scope: for the tail expression only parameters and globals are visible
-        sig = ", ".join(f"{p}: {t}" for p, t in params)
+        sig = ", ".join([f"{e}: {sn}" for e, sn in extracted] + [f"{p}: {t}" for p, t in params])
         head = f"fn {name}({sig})" + (f" -> {ret}" if ret else "") + " {"
         lines = [head] + ["    " + l for l in body]
         if ret:
@@ -488,6 +501,20 @@ class Gen:
             self.globals = saved
             self.globals[g] = ty
             lines.append(f"let {g} = {init};")
+        if self.allow_singletons and r.random() < 0.3:
+            # singletons (declared after the globals were initialised: global initialisers are literals)
+            self.features.add("singleton")
+            self.host = {}
+            for _ in range(r.randrange(1, 3)):
+                sn = "$" + self.fresh("S")
+                ty = r.choice([T_INT, T_INT, T_STR, T_BOOL, T_LINT, T_OBJ])
+                self.singletons[sn] = ty
+                lines.append(f"{sn} = {ty};")
+                if r.random() < 0.6:
+                    self.features.add("singleton-host-value")
+                    self.host[sn] = {T_INT: lambda: r.choice(INT_POOL), T_STR: lambda: r.choice(STR_POOL), T_BOOL: lambda: r.random() < 0.5,
+                                     T_LINT: lambda: [r.choice(INT_POOL) for _ in range(r.randrange(0, 4))],
+                                     T_OBJ: lambda: {"a": r.choice(INT_POOL), "b": r.choice(STR_POOL)}}[ty]()
         nfns = nfns if nfns is not None else r.randrange(0, 4)
         for i in range(nfns):
             may_throw = self.allow_throw and r.random() < 0.2
@@ -504,3 +531,15 @@ def generate(rng, **kw):
     g = Gen(rng, **kw)
     src = g.program()
     return src, sorted(g.features)
+
+
+def generate_case(rng, **kw):
+    """Like generate, for the streams that hand host values to the backends (progstream.run_all):
+    -> (case, features) where case is the program text, or (text, None, {`$Name`: value sexp}) when the
+    program declares singletons (allow_singletons=True; a singleton without an entry gets its zero value)."""
+    from gen.families import host_value
+    g = Gen(rng, **kw)
+    src = g.program()
+    if g.host is None:
+        return src, sorted(g.features)
+    return (src, None, {k: host_value(v) for k, v in g.host.items()}), sorted(g.features)
